@@ -23,6 +23,7 @@ def check(program: Program, run: Run) -> None:
         "hash-seed independence. Nothing is executed.")
     run.rule("R1 render purity: no REBIND/MUTATE on self/param/global in the observer closure (allow: Parameterizer.create_param:self.values)")
     run.rule("R2 order-stable output: no iteration of set-kinded values (for/comprehension/join/list()/unpack) in the closure; no id()/random/time/env; hash() only in __hash__")
+    run.rule("R6 no cached_property / lru_cache / cache on methods: a memo stored on the object is inherited by every shallow copy")
     run.rule("R5 no @builder method is invoked on the rendered object itself inside the observer closure (with immutable=False the decorator does not copy)")
     run.rule("R4 no one-shot iterator (generator call, generator expression, map/filter/zip...) is stored in object state: iterating it while rendering is a write")
     run.rule("R3 fresh accumulator, frozen context: Parameterizer() constructed inside get_parameterized_sql; no mutable defaults; SqlContext frozen dataclass; copy() constructs a new SqlContext")
@@ -97,6 +98,28 @@ def check(program: Program, run: Run) -> None:
     _r4(program, run)
     # R5
     _r5(program, run, closure)
+    # R6
+    _r6(program, run)
+
+
+def _r6(program: Program, run: Run) -> None:
+    """R6: functools.cached_property / lru_cache / cache on a method of a copied-and-rebuilt object is a render-time write
+    in disguise: the first observation stores the value in the instance __dict__ (or in a cache keyed by the instance),
+    the builder's shallow copy (`__dict__.update`, copy.copy) hands that value to every derived object, and a builder
+    created with immutable=False keeps it across its own later changes."""
+    MEMO = {"cached_property", "lru_cache", "cache"}
+    n = 0
+    for c in program.all_classes():
+        for name, f in c.methods.items():
+            n += 1
+            hit = MEMO & set(f.decorators)
+            if not hit:
+                continue
+            run.ob("C02/R6 no memoising decorator on methods of renderable/copied objects", f.qualname, False, detail=",".join(sorted(hit)), where=f.loc())
+            run.finding(f"C02/memo-on-copied-object:{f.qualname}",
+                        f"{f.qualname} is decorated with {sorted(hit)[0]}: the value computed at the first observation is stored on the object and travels with every shallow copy "
+                        "(@builder, __copy__, copy.copy), so objects derived after a render keep answering with the ancestor's value", where=f.loc(), rule="R6")
+    run.ob("C02/R6 no memoising decorator on methods of renderable/copied objects", "package", True, detail=f"{n} methods scanned", nontrivial=False)
 
 
 def _r5(program: Program, run: Run, closure) -> None:
